@@ -388,7 +388,9 @@ def judge(case, an, obs, where):
                     where, nk, show(got), show(v))))
         elif cls_ == 'either':
             if not isinstance(got, Err) and not (not isinstance(v, L.AnyErr) and X.same(got, v)):
-                fails.append(('mark|either-wrong-value:%s|%s' % (sub, g), '%s %s is %s: an ordinary value must be the lazy value %s' % (where, nk, show(got), show(v))))
+                # (a cell that absorbs the #CIRC! of a vetoed harmless cycle - listed finding F-C10-3 - carries its tag)
+                tag = '%s:rect-veto' % sub if L.rect_veto(an, k) else sub
+                fails.append(('mark|either-wrong-value:%s|%s' % (tag, g), '%s %s is %s: an ordinary value must be the lazy value %s' % (where, nk, show(got), show(v))))
     return fails
 
 
